@@ -12,6 +12,7 @@ import (
 	"sync/atomic"
 	"time"
 
+	berrors "github.com/grailbio/base/errors"
 	"github.com/grailbio/base/retry"
 	"github.com/grailbio/bigslice/exec"
 	"verifh/ev"
@@ -67,6 +68,24 @@ func usable(a action, n int) bool {
 
 var errScripted = errors.New("scripted transient failure")
 
+// errKinds: the VALUE of a transient failure. retryReader documents that it retries
+// "regardless of error kind/severity ... such as aws-sdk or io.UnexpectedEOF"; a reader
+// that special-cases one of these values (e.g. takes a cut stream for its end) breaks
+// the property only for that value.
+var errKinds = []struct {
+	name string
+	err  error
+}{
+	{"plain", errScripted},
+	{"io.ErrUnexpectedEOF", io.ErrUnexpectedEOF},
+	{"io.ErrClosedPipe", io.ErrClosedPipe},
+	{"io.ErrNoProgress", io.ErrNoProgress},
+	{"context.DeadlineExceeded(of a sub-call)", context.DeadlineExceeded},
+	{"base-errors-Net", berrors.E(berrors.Net, "scripted: connection reset")},
+	{"base-errors-Unavailable", berrors.E(berrors.Unavailable, "scripted: unavailable")},
+	{"base-errors-Temporary-severity", berrors.E(berrors.Temporary, "scripted: temporary")},
+}
+
 // tail says what the opener does once the script is used up.
 type tail uint8
 
@@ -91,6 +110,7 @@ type scripted struct {
 	script      []action
 	tail        tail
 	eofWithData bool
+	errKind     int
 	limit       int // failures after which the harness stops the run (never-gives-up guard)
 
 	pos       int
@@ -110,7 +130,7 @@ func (s *scripted) fail() error {
 	if s.fails > s.limit {
 		panic(giveUp{})
 	}
-	return errScripted
+	return errKinds[s.errKind].err
 }
 
 func (s *scripted) OpenAt(ctx context.Context, off int64) (io.ReadCloser, error) {
@@ -205,6 +225,7 @@ func (r *sreader) Read(p []byte) (int, error) {
 type retryCfg struct {
 	eofWithData bool
 	bufSize     int
+	errKind     int
 }
 
 type retryStats struct {
@@ -258,8 +279,8 @@ func (ex *retryExplorer) finish() {
 				ev.Fatal("c15: retryReader violation %s not reproduced on re-execution of [%s]", sig, scriptString(c.script))
 			}
 		}
-		ex.r.Violate(sig, fmt.Sprintf("retryReader: %s; script [%s] then %s; eofWithData=%v buf=%d: %s", c.class, scriptString(c.script), tailName[c.tail], c.cfg.eofWithData, c.cfg.bufSize, msg),
-			map[string]interface{}{"script": scriptString(c.script), "after_the_script": tailName[c.tail], "eof_with_last_bytes": c.cfg.eofWithData, "read_buffer": c.cfg.bufSize,
+		ex.r.Violate(sig, fmt.Sprintf("retryReader: %s; script [%s] then %s; eofWithData=%v buf=%d failure-value=%s: %s", c.class, scriptString(c.script), tailName[c.tail], c.cfg.eofWithData, c.cfg.bufSize, errKinds[c.cfg.errKind].name, msg),
+			map[string]interface{}{"script": scriptString(c.script), "after_the_script": tailName[c.tail], "eof_with_last_bytes": c.cfg.eofWithData, "read_buffer": c.cfg.bufSize, "failure_value": errKinds[c.cfg.errKind].name,
 				"delivered": string(ob.out), "stream": string(stream), "final_error": fmt.Sprint(ob.final), "open_offsets": ob.s.opens,
 				"failures_met": ob.s.fails, "max_consecutive_failures": ob.s.maxConsec, "budget": ex.B, "msg": msg,
 				"violating_runs_with_this_signature": c.count})
@@ -276,7 +297,7 @@ type retryObs struct {
 }
 
 func (ex *retryExplorer) runOne(script []action, cfg retryCfg, tl tail) (ob retryObs) {
-	s := &scripted{script: script, tail: tl, eofWithData: cfg.eofWithData, limit: len(script) + 10*(ex.B+2)}
+	s := &scripted{script: script, tail: tl, eofWithData: cfg.eofWithData, errKind: cfg.errKind, limit: len(script) + 10*(ex.B+2)}
 	ob.s = s
 	defer func() {
 		if e := recover(); e != nil {
@@ -412,6 +433,9 @@ func (ex *retryExplorer) explore(script []action, cfg retryCfg, maxLen int) {
 			if class == "no-error-although-budget-exhausted" {
 				sig = fmt.Sprintf("C15/retryReader/%s/after-script=%s", class, tailName[tl])
 			}
+			if cfg.errKind != 0 {
+				sig += "/failure-value=" + errKinds[cfg.errKind].name
+			}
 			rank := fmt.Sprintf("%03d|%s|%d|%v|%02d", len(script), scriptString(script), tl, cfg.eofWithData, cfg.bufSize)
 			ex.mu.Lock()
 			c := ex.cands[sig]
@@ -463,12 +487,21 @@ func runRetry(r *ev.Run, workers int) *retryStats {
 	exec.VerifC15SetRetryPolicy(zp)
 	st.budget = B
 	st.maxLen = B + 2
-	cfgs := []retryCfg{{false, 4}, {true, 4}, {false, 1}, {true, 1}}
+	cfgs := []retryCfg{{false, 4, 0}, {true, 4, 0}, {false, 1, 0}, {true, 1, 0}}
 	if r.Thorough() {
-		cfgs = []retryCfg{{false, 4}, {true, 4}, {false, 1}, {true, 1}, {false, 2}, {true, 2}, {false, 8}, {true, 8}}
+		cfgs = []retryCfg{{false, 4, 0}, {true, 4, 0}, {false, 1, 0}, {true, 1, 0}, {false, 2, 0}, {true, 2, 0}, {false, 8, 0}, {true, 8, 0}}
+	}
+	// every other failure value: the two 4-byte-buffer configurations (all of them in thorough)
+	base := append([]retryCfg(nil), cfgs...)
+	for k := 1; k < len(errKinds); k++ {
+		for _, c := range base {
+			if r.Thorough() || c.bufSize == 4 {
+				cfgs = append(cfgs, retryCfg{c.eofWithData, c.bufSize, k})
+			}
+		}
 	}
 	for _, c := range cfgs {
-		st.configs = append(st.configs, fmt.Sprintf("(%v,%d)", c.eofWithData, c.bufSize))
+		st.configs = append(st.configs, fmt.Sprintf("(%v,%d,%s)", c.eofWithData, c.bufSize, errKinds[c.errKind].name))
 	}
 	ex := &retryExplorer{r: r, st: st, B: B, cands: map[string]*retryCand{}, extraTailMaxLen: B + 1}
 	if r.Thorough() {
@@ -496,7 +529,13 @@ func runRetry(r *ev.Run, workers int) *retryStats {
 			}
 		}
 	}
-	ev.Parallel(len(jobs), workers, func(i int) { ex.explore(jobs[i].script, jobs[i].cfg, st.maxLen) })
+	ev.Parallel(len(jobs), workers, func(i int) {
+		ml := st.maxLen
+		if jobs[i].cfg.errKind != 0 && !r.Thorough() {
+			ml-- // quick: the other failure values one step shorter
+		}
+		ex.explore(jobs[i].script, jobs[i].cfg, ml)
+	})
 	ex.finish()
 	r.Sample(map[string]interface{}{"retryReader_script": "D2 P1 O F D3", "meaning": "Read delivers 2 bytes; next Read returns (1 byte, error); the reopen fails; after the next reopen the Read fails; then 3 bytes; after the script one of the tails: " + strings.Join(tailName[:], " | ") + "",
 		"budget_B": B, "oracle": "EOF => delivered == \"abcdef\"; error => delivered is a prefix of the stream and the reader met at least B failures"})
